@@ -140,10 +140,14 @@ func runCheck(prop, tier string, seed int) int {
 		}
 	}
 	openFinding := map[string]*knownFinding{}
+	anyOpen := map[string]*knownFinding{} // open findings of any property, by obligation
 	for i := range known.Findings {
 		f := &known.Findings[i]
 		if f.Status != "open" {
 			continue
+		}
+		for _, o := range f.Obligations {
+			anyOpen[o] = f
 		}
 		for _, p := range f.Properties {
 			if p == prop {
@@ -351,7 +355,11 @@ func runCheck(prop, tier string, seed int) int {
 						w.db.Dropped = map[string]bool{}
 					}
 					w.db.Dropped[key] = true
-					withdrawn = append(withdrawn, fmt.Sprintf("%s (%s)", shortName(key), o.Status))
+					wd := fmt.Sprintf("%s (%s)", shortName(key), o.Status)
+					if f, ok := anyOpen[shortName(vc.FuncKey(w.funcs[r.name]))+"/post/"+stableName(o.O.Label)]; ok && o.O.Kind == "post" {
+						wd += " [open known finding " + f.ID + "]"
+					}
+					withdrawn = append(withdrawn, wd)
 					if o.O.Kind == "post" {
 						fk := vc.FuncKey(w.funcs[r.name])
 						for j, r2 := range results {
